@@ -39,9 +39,12 @@ M = [
     ("C19-7-partial-results-read-after-manager-exit", [(KD, "                            p.join()\n                all_paths = list(all_paths)\n",
                                                         "                            p.join()\n                if not self.timed_out:\n                    all_paths = list(all_paths)\n            if self.timed_out:\n                all_paths = list(all_paths)\n")]),
     # ---------------------------------------------------------------- C17
-    ("C17-1-in-place-write-restored", [(HW, "        tmpfile = cachefile.with_name(\"{}.{}.tmp\".format(cachefile.name, os.getpid()))\n", "        tmpfile = cachefile\n"),
-                                       (HW, "            os.replace(str(tmpfile), str(cachefile))\n        finally:\n            if tmpfile.exists():\n                tmpfile.unlink()\n",
-                                        "        finally:\n            pass\n")]),
+    ("C17-1-in-place-write-and-strict-read-restored", [
+        (HW, "        tmpfile = cachefile.with_name(\"{}.{}.tmp\".format(cachefile.name, os.getpid()))\n", "        tmpfile = cachefile\n"),
+        (HW, "            os.replace(str(tmpfile), str(cachefile))\n        finally:\n            if tmpfile.exists():\n                tmpfile.unlink()\n",
+         "        finally:\n            pass\n"),
+        (HW, "        try:\n            with cachefile.open(\"rb\") as f:\n                data = pickle.load(f)\n        except Exception:\n            return None\n",
+         "        with cachefile.open(\"rb\") as f:\n            data = pickle.load(f)\n")]),
     ("C17-2-tolerant-read-removed", [(HW, "        try:\n            with cachefile.open(\"rb\") as f:\n                data = pickle.load(f)\n        except Exception:\n            return None\n",
                                       "        with cachefile.open(\"rb\") as f:\n            data = pickle.load(f)\n")]),
     ("C17-3-shared-temp-name", [(HW, "cachefile.with_name(\"{}.{}.tmp\".format(cachefile.name, os.getpid()))", "cachefile.with_name(\"{}.tmp\".format(cachefile.name))")]),
